@@ -28,11 +28,15 @@ def run_buf_stream(run, a, pid, sub, binpath, fail_pids):
         if tags[0] == 'oracle-fail':
             fp = tags[1] if len(tags) > 1 else '?'
             replay = d.get('replay', '').replace('~', ' ').replace('|', '\n')
-            if fp in fail_pids:
+            if set(fp.split('+')) & set(fail_pids):
                 key = f"method={d.get('method')}" if fp == 'C10' else f"op={d.get('op')}:root={d.get('root')}"
                 run.fail(key, ln.split(' replay=')[0], replay)
             else:
+                # another property of the same model fails on the implementation: the model (which satisfies all of them) no longer
+                # describes this code, so this property is not shown to hold either
                 other_prop_fails += 1
+                if other_prop_fails <= 3:
+                    run.breakage(f'correspondence (buf stream): implementation violates {fp}', ln.split(' replay=')[0] + '\n' + replay)
         elif tags[0] == 'model-diff':
             replay = d.get('replay', '').replace('~', ' ').replace('|', '\n')
             run.breakage('correspondence (buf stream): model and implementation disagree', ln.split(' replay=')[0] + '\n' + replay)
@@ -152,9 +156,13 @@ def run_mut_stream(run, a, pid, binpath, fail_pids):
         if tags[0] == 'oracle-fail':
             fp = tags[1] if len(tags) > 1 else '?'
             replay = d.get('replay', '').replace('~', ' ').replace('|', '\n')
-            if fp in fail_pids:
+            if set(fp.split('+')) & set(fail_pids):
                 key = f"method={d.get('method')}" if d.get('method', '-') != '-' else f"op={d.get('op')}:root={d.get('root')}"
                 run.fail(key, ln.split(' replay=')[0], replay)
+            else:
+                run.cov['other_property_failures_seen_mut'] = run.cov.get('other_property_failures_seen_mut', 0) + 1
+                if run.cov['other_property_failures_seen_mut'] <= 3:
+                    run.breakage(f'correspondence (mut stream): implementation violates {fp}', ln.split(' replay=')[0] + '\n' + replay)
         elif tags[0] == 'model-diff':
             replay = d.get('replay', '').replace('~', ' ').replace('|', '\n')
             run.breakage('correspondence (mut stream): model and implementation disagree', ln.split(' replay=')[0] + '\n' + replay)
